@@ -16,6 +16,10 @@ CHECKS = {
    text="The real `main` of the cli crate and the real CachedStdoutWriter/StdoutWriter/SarifWriter executed symbolically from MIR, with argument parsing, the analysis runner, terminal rendering and SARIF serialisation replaced by recording stubs: for every --level, every set of user files, several --allow lists, SARIF on/off and every shape of <=2 (thorough 3) offered reports, a report is displayed iff level >= --level, id not allowed and not located solely in included files; displayed exactly once in order; exit status 0 iff nothing displayed; summary line equals the count; the SARIF writer receives exactly the displayed reports. Kani proves MessageCategory's order is the severity order. Counterexamples are replayed against the real binary on a generated project.",
    note=TB + "Stubs listed in the evidence. Outside: codespan rendering, serde_sarif serialisation and SARIF field conversion, what the passes find. Report conservation through the AnalysisRunner is checked by the runner harness when listed in the evidence bounds.",
    ref="DESIGN.md §3 C03", engine='kani+mirsym', technique="symbolic execution of rustc MIR (main + writers) with z3, Kani/CBMC for the category order; counterexamples replayed against the real binary"),
+ 'C01': dict(
+   text="Partial: the union of the panic / overflow / bounds / unbounded-work obligations of kernels that user text reaches directly, all executed symbolically from MIR: the semantic actions of the literal tokens of the grammar (decimal, hexadecimal, version component) on every token text of length <= 24 matching the token's regular expression read from lang.lalrpop; the comment stripper on every string of <= 5 Unicode chars; every field-arithmetic function on all literal operands < 2^256 (no panic, no 2^k-sized computation); value publishing and the operator table; CFG lifting + dominator tree on every skeleton with <= 3 statements. Lexer counterexamples are replayed with the real binary.",
+   note=TB + "This is NOT a claim about the whole pipeline: the LALR automaton and the other grammar actions, desugaring, IR-lifting catch-all arms, include handling, stack depth, memory and wall-clock time are outside (no solver-based encoding of them is within reach of the engine).",
+   ref="DESIGN.md §3 C01"),
  'C02': dict(
    text="check_compiler_version executed symbolically from MIR for every version triple (accepted iff major equal and (minor,patch) <= supported, otherwise an error-level report; no pragma => one warning), plus the C03 main/writer harness specialised to error-level reports: every error offered to the writer is displayed at every --level unless allowed, and then the exit status is non-zero; 'No issues found.' only when nothing was displayed.",
    note=TB + "Partial: that the parser/desugarer/lifter actually produce a report for each failure class is outside this check (needs the pipeline); file-system errors are represented by a location-less error report offered to the writer.",
